@@ -460,6 +460,7 @@ class Inliner:
         self.known = known
         self.counter = 0
         self._single_binding: Dict[str, int] = {}
+        self._attr_stores: Set[str] = set()
         self.inlined: List[Tuple[str, str]] = []            # (caller, helper)
 
     # ------------------------------------------------------------------ discovery
@@ -508,7 +509,13 @@ class Inliner:
             # only if that variable is bound exactly once in the caller (or the argument is a constant)
             if isinstance(a, ast.Constant):
                 continue
-            if not (isinstance(a, ast.Name) and self._single_binding.get(a.id, 0) == 1) or p_ in _stores(fn):
+            root_ = a
+            while isinstance(root_, ast.Attribute):
+                root_ = root_.value
+            # a name bound once, or an attribute chain on such a name that the caller never re-assigns (`ctx.param_sep`)
+            ok_ = isinstance(root_, ast.Name) and self._single_binding.get(root_.id, 0) == 1 and \
+                (isinstance(a, ast.Name) or ast.unparse(a) not in self._attr_stores)
+            if not ok_ or p_ in _stores(fn):
                 return None
         for p_, a in binding.items():
             if isinstance(a, _SIMPLE_ARG) and not (p_ in _stores(fn)):
@@ -553,6 +560,7 @@ class Inliner:
                     return
                 caller_names = _names(fn)
                 self._single_binding = {}
+                self._attr_stores = {ast.unparse(n_) for n_ in ast.walk(fn) if isinstance(n_, ast.Attribute) and isinstance(n_.ctx, (ast.Store, ast.Del))}
                 for a_ in ast.walk(fn.args):
                     if isinstance(a_, ast.arg):
                         self._single_binding[a_.arg] = self._single_binding.get(a_.arg, 0) + 1
